@@ -1300,6 +1300,56 @@ fn size_probe_run(ctx: &mut RunCtx, j: u64) {
             }
         }
     }
+    // Symmetry: these builtins are charged by a symmetric function of their two argument sizes
+    // (max / min / sum of the sizes, or "equal sizes ? linear : constant"), so swapping arguments
+    // of different sizes must not change the charge — both arguments have to be measured by the
+    // same rule. Strings include multi-byte characters so that bytes and characters differ.
+    let x4 = X4;
+    let sym: Vec<(&str, String, String)> = vec![
+        ("addInteger", format!("(con integer {x4})"), "(con integer 7)".into()),
+        ("subtractInteger", format!("(con integer {x4})"), "(con integer 7)".into()),
+        ("multiplyInteger", format!("(con integer {x4})"), "(con integer 7)".into()),
+        ("equalsInteger", format!("(con integer {x4})"), "(con integer 7)".into()),
+        ("lessThanInteger", format!("(con integer {x4})"), "(con integer 7)".into()),
+        ("lessThanEqualsInteger", format!("(con integer {x4})"), "(con integer 7)".into()),
+        ("appendByteString", format!("(con bytestring #{B32})"), "(con bytestring #01)".into()),
+        ("equalsByteString", format!("(con bytestring #{B32})"), "(con bytestring #01)".into()),
+        ("lessThanByteString", format!("(con bytestring #{B32})"), "(con bytestring #01)".into()),
+        ("lessThanEqualsByteString", format!("(con bytestring #{B32})"), "(con bytestring #01)".into()),
+        ("appendString", "(con string \"\u{e9}\u{e9}\u{e9}\u{e9}\u{e9}\u{e9}\u{e9}\u{e9}\u{e9}\u{e9}\u{e9}\u{e9}\u{e9}\u{e9}\u{e9}\u{e9}\u{e9}\")".into(), "(con string \"x\")".into()),
+        ("appendString", "(con string \"abcdefghijklmnopqrstuvwxyzabcdefghijklmnopqrstuvwxyz\")".into(), "(con string \"\")".into()),
+        ("equalsString", "(con string \"\u{20ac}\u{20ac}\u{20ac}\u{20ac}\u{20ac}\u{20ac}\u{20ac}\u{20ac}\u{20ac}\u{20ac}\u{20ac}\")".into(), "(con string \"x\")".into()),
+        ("equalsData", format!("(con data (List [I {x4}, B #{B32}]))"), "(con data (I 1))".into()),
+    ];
+    for (f, a, b) in sym {
+        let run = |ctx: &mut RunCtx, l: &str, r: &str| -> Option<((i64, i64), String)> {
+            let src = format!("(program 1.1.0 [ [ (builtin {f}) {l} ] {r} ])");
+            let term = parse_source(&src)?;
+            let e = execute(&term, &cfg, big(), 200, false);
+            ctx.stats.inc("evaluations", 1);
+            if !matches!(e.outcome, Outcome::Value(_)) {
+                return None;
+            }
+            Some((spent(big(), e.remaining), src))
+        };
+        let (Some((c_ab, src_ab)), Some((c_ba, src_ba))) = (run(ctx, &a, &b), run(ctx, &b, &a)) else {
+            ctx.stats.inc("symmetry_probes_not_evaluating", 1);
+            continue;
+        };
+        ctx.stats.inc("symmetry_probes", 1);
+        if c_ab != c_ba {
+            ctx.violation(
+                PROP,
+                "argument-symmetry",
+                format!("argument-symmetry|{f}|{}", cfg.class()),
+                format!(
+                    "{f} under {}: {src_ab} costs cpu={} mem={}, with the arguments swapped {src_ba} costs cpu={} mem={}; the ledger charges {f} by a symmetric function of the two argument sizes",
+                    cfg.class(), c_ab.0, c_ab.1, c_ba.0, c_ba.1
+                ),
+                json!({ "kind": "symmetry-probe", "j": j, "builtin": f, "config": cfg.to_json(), "source": src_ab, "swapped": src_ba }),
+            );
+        }
+    }
     ctx.event(&format!("size-probe {} groups={}", cfg.class(), groups.len()));
 }
 
@@ -1927,6 +1977,10 @@ impl Engine for BudgetEngine {
                 Some(p) => param_interference_probe(ctx, &p, src, 400),
                 None => ctx.harness_error("replay: unknown program".into()),
             }
+            return;
+        }
+        if jstr(trace, "kind") == "symmetry-probe" {
+            size_probe_run(ctx, ju64(trace, "j"));
             return;
         }
         if jstr(trace, "kind") == "position-probe" {
